@@ -15,6 +15,8 @@ structure Renaming (ρ : String → String) : Prop where
   dots : ρ "..." = "..."
   self : ρ "self" = "self"
   keep : ∀ n, Core.NameFilter.keep (ρ n) = Core.NameFilter.keep n
+  read : ∀ n, Core.NameFilter.read (ρ n) = Core.NameFilter.read n
+  assign : ∀ n, Core.NameFilter.assign (ρ n) = Core.NameFilter.assign n
 
 def renEnv (ρ : String → String) (env : Env) : Env := env.map fun e => (ρ e.1, e.2)
 
@@ -46,7 +48,10 @@ theorem sRead_ren (inF : Bool) (env : Env) (t : Tok) : sRead inF (renEnv ρ env)
     simp [h, h']
   · have h' : ¬ (inF = false ∧ (t.ren ρ).text = "...") := fun hh => h ⟨hh.1, this.mp hh.2⟩
     simp only [h, h', if_false]
-    simp only [Tok.ren, look_ren hρ]
+    simp only [Tok.ren, look_ren hρ, hρ.read]
+
+theorem sAssign_ren (env : Env) (t : Tok) : sAssign (renEnv ρ env) (t.ren ρ) = sAssign env t := by
+  simp only [sAssign, Tok.ren, look_ren hρ, hρ.assign]
 
 theorem bindTok_ren (env : Env) (t : Tok) (name : String) (k : DeclKind) :
     renEnv ρ (bindTok env t name k) = bindTok (renEnv ρ env) (t.ren ρ) (ρ name) k := rfl
@@ -192,8 +197,8 @@ theorem sTargets_ren (inF : Bool) (env : Env) (vars : VarList) (es : ExprList) :
       have ih := sTargets_ren inF env rest .nil
       cases v with
       | name n =>
-        show ([] : List Ans) ++ [] ++ sTargets inF (renEnv ρ env) (rest.ren ρ) (ExprList.nil.ren ρ) = [] ++ [] ++ sTargets inF env rest .nil
-        rw [ih]
+        show ([] : List Ans) ++ sAssign (renEnv ρ env) (n.ren ρ) ++ sTargets inF (renEnv ρ env) (rest.ren ρ) (ExprList.nil.ren ρ) = [] ++ sAssign env n ++ sTargets inF env rest .nil
+        rw [ih, sAssign_ren hρ]
       | expr vsp p ss =>
         show ([] : List Ans) ++ eV inF (renEnv ρ env) ((Var.expr vsp p ss).ren ρ) ++ sTargets inF (renEnv ρ env) (rest.ren ρ) (ExprList.nil.ren ρ) =
           [] ++ eV inF env (.expr vsp p ss) ++ sTargets inF env rest .nil
@@ -202,9 +207,9 @@ theorem sTargets_ren (inF : Bool) (env : Env) (vars : VarList) (es : ExprList) :
       have ih := sTargets_ren inF env rest es'
       cases v with
       | name n =>
-        show eE inF (renEnv ρ env) (e.ren ρ) ++ [] ++ sTargets inF (renEnv ρ env) (rest.ren ρ) (es'.ren ρ) =
-          eE inF env e ++ [] ++ sTargets inF env rest es'
-        rw [ih, eE_ren hρ]
+        show eE inF (renEnv ρ env) (e.ren ρ) ++ sAssign (renEnv ρ env) (n.ren ρ) ++ sTargets inF (renEnv ρ env) (rest.ren ρ) (es'.ren ρ) =
+          eE inF env e ++ sAssign env n ++ sTargets inF env rest es'
+        rw [ih, eE_ren hρ, sAssign_ren hρ]
       | expr vsp p ss =>
         show eE inF (renEnv ρ env) (e.ren ρ) ++ eV inF (renEnv ρ env) ((Var.expr vsp p ss).ren ρ) ++
             sTargets inF (renEnv ρ env) (rest.ren ρ) (es'.ren ρ) =
@@ -456,10 +461,10 @@ theorem sStmt_ren (inF : Bool) (env : Env) (s : Stmt) :
     | nil => exact ⟨rfl, rfl⟩
     | cons base more =>
       refine ⟨?_, rfl⟩
-      show (if (!more.isEmpty || method.isSome) = true then sRead inF (renEnv ρ env) (base.ren ρ) else []) ++
+      show (if (!more.isEmpty || method.isSome) = true then sRead inF (renEnv ρ env) (base.ren ρ) else sAssign (renEnv ρ env) (base.ren ρ)) ++
           sBody (renEnv ρ env) method (body.ren ρ) =
-        (if (!more.isEmpty || method.isSome) = true then sRead inF env base else []) ++ sBody env method body
-      rw [sRead_ren hρ, sBody_ren env method body]
+        (if (!more.isEmpty || method.isSome) = true then sRead inF env base else sAssign env base) ++ sBody env method body
+      rw [sRead_ren hρ, sBody_ren env method body, sAssign_ren hρ]
   | localFunc sp name body =>
     refine ⟨?_, ?_⟩
     · show sDecl (renEnv ρ env) (name.ren ρ) (name.ren ρ).text ++
